@@ -376,7 +376,7 @@ def run_task(task, world_cls=None):
     install_clock()
     acc = Acc()
     w = (world_cls or World)(task)
-    init = (w.S(''), w.S(''), w.S(''), task['L'], False)
+    init = (w.S(''), w.S(''), w.S(''), task['L'], False, False)
     cap = task.get('cap', 400000)
     parent = {init: None}
     frontier = [init]
@@ -391,11 +391,11 @@ def run_task(task, world_cls=None):
                 def run(ch, st=st, call=call):
                     CLOCK.reset()
                     sp = w.new_spawn()
-                    sp.restore(st[0], st[1])
+                    sp.restore(st[0], st[1], st[5])
                     env = [st[3], st[4], st[2]]
                     out, viol = w.do_call(sp, env, call, ch, flags)
                     b, f = sp.snap()
-                    return out, viol, (b, f, env[2], env[0], env[1])
+                    return out, viol, (b, f, env[2], env[0], env[1], sp.aliased())
                 for ch, (out, viol, ns) in dfs(run):
                     acc.execs += 1
                     acc.transitions += 1
@@ -424,10 +424,10 @@ def run_task(task, world_cls=None):
             sp, env, obs, viol = w.run_history(hist)
             live_checked += 1
             b, f = sp.snap()
-            if viol or (b, f, env[2], env[0], env[1]) != ns:
+            if viol or (b, f, env[2], env[0], env[1], sp.aliased()) != ns:
                 acc.violation('snapshot-vs-live-divergence',
                               'state %r reached by restore differs from live run %r'
-                              % (ns, (b, f, env[2], env[0], env[1])),
+                              % (ns, (b, f, env[2], env[0], env[1], sp.aliased())),
                               {'task': task, 'history': hist, 'expect_state': list(ns)})
         frontier = nxt
         depth += 1
@@ -469,7 +469,7 @@ def replay(spec, world_cls=None):
                             'msg': 'pending %r' % (sp._before.getvalue(),)}
     elif 'expect_state' in spec:
         b, f = sp.snap()
-        now = [b, f, env[2], env[0], env[1]]
+        now = [b, f, env[2], env[0], env[1], sp.aliased()]
         if now != list(spec['expect_state']):
             out['violation'] = {'key': 'snapshot-vs-live-divergence', 'msg': repr(now)}
     return out
